@@ -129,7 +129,7 @@ pub fn c15_q_f4_reencode<S: Src>(s: &mut S) {
     vcheck!(s, u2 == u, "c15.f4 encode(decode(u)) == u");
 }
 
-harnesses! { k;
+harnesses! { k, "sel_c15.rs";
     #[kani::stub(f64::powi, libm_models::powi_model)]
     #[kani::stub(f64::log2, libm_models::log2_model)]
     c15_q_f1_roundtrip;
